@@ -377,6 +377,13 @@ impl C15 {
         let cfg = MCfg { m128, fastload: true, ay: data.len() % 2 == 0, kempston: data.len() % 3 == 0, mouse: data.len() % 5 < 2, ..Default::default() };
         let mut calls = 0u64;
         let mut e = new_emu(&cfg);
+        // in a fifth of the attempts the receiving machine has been stopped by a breakpoint in the middle
+        // of a frame (snapshot files then move the frame clock, possibly backwards)
+        if format <= 2 && (data.len() + chunk) % 5 == 0 {
+            ctx.probe("receiver_stopped_mid_frame");
+            let mut r = crate::prng::Rng::new(data.len() as u64 ^ 0x5EED);
+            super::c14::dirty_receiver(&mut e, 8, &mut r, m128);
+        }
         let mut result: &'static str = "ok";
         let mut max_req = 0usize;
         let r = runner::catch(|| {
@@ -585,7 +592,7 @@ impl Property for C15 {
         ]
     }
     fn expected_probes(&self) -> Vec<&'static str> {
-        vec!["sweep_read_err", "sweep_seek_err", "mutated", "random_bytes", "outcome_ok", "outcome_err", "eof_ok0", "eof_err", "short_reads", "field_sweep"]
+        vec!["sweep_read_err", "sweep_seek_err", "mutated", "random_bytes", "outcome_ok", "outcome_err", "eof_ok0", "eof_err", "short_reads", "field_sweep", "receiver_stopped_mid_frame"]
     }
     fn minimise_budget(&self) -> usize {
         60
